@@ -312,6 +312,42 @@ def check(res, ctx, keys, label, kinds=('identity', 'shared')):
                 res.violation(RULE, '%s:%s:shared-empty:%s' % (key[0], key[1], nm), m.where(node),
                               '%s: the module-level %s = %s is %s as the result - one object shared by every call, so what one caller does '
                               'with its result changes what later calls return' % (label, nm, src(cnode)[:60], how), func=key[1])
+        # RP.shared: a closure made once at import (name = factory(...) at module level) that hands out a mutable of the factory's scope
+        for nm, cnode in m.constants.items():
+            if '.' in nm or not isinstance(cnode, ast.Call) or not isinstance(cnode.func, ast.Name) or cnode.func.id not in m.functions:
+                continue
+            if not any(isinstance(x, ast.Name) and x.id == nm and isinstance(x.ctx, ast.Load) for x in walk_no_defs(f)):
+                continue
+            g = m.functions[cnode.func.id]
+            if not isinstance(g, ast.FunctionDef):
+                continue
+            gbinds = _bindings(g)
+            for lname, stores in gbinds.items():
+                if len(stores) != 1 or stores[0][0] != 'assign' or stores[0][1] is None:
+                    continue
+                lit = stores[0][1]
+                value_like = isinstance(lit, (ast.List, ast.Set)) and all(isinstance(e_, ast.Constant) for e_ in lit.elts) or \
+                    isinstance(lit, ast.Dict) and all(isinstance(e_, ast.Constant) for e_ in list(lit.keys) + list(lit.values) if e_ is not None)
+                if not (_mutable_literal(lit, empty_only=True) or value_like):
+                    continue
+                for h in [x for x in ast.walk(g) if isinstance(x, ast.FunctionDef) and x is not g]:
+                    if lname in _bindings(h) or lname in _params(h):
+                        continue
+                    uses = [(nd, how) for nd, how in _handed_out(h, lname) if how in ('returned', 'yielded')]
+                    for nd, how in _handed_out(h, lname):
+                        if how.startswith('stored in ') and isinstance(nd, ast.Assign):
+                            for t in nd.targets:
+                                if isinstance(t, ast.Subscript) and isinstance(t.value, ast.Name) and t.value.id in _params(h):
+                                    uses.append((nd, 'handed out through %s' % src(t)))
+                    if not uses:
+                        continue
+                    n += 1
+                    node, how = uses[0]
+                    res.ob(RULE, '%s.%s' % key, 'closure %s = %s(...) hands out %s of its factory' % (nm, g.name, lname), False)
+                    res.violation(RULE, '%s:%s:shared-closure:%s' % (key[0], g.name, lname), m.where(node),
+                                  '%s: %s is a closure made once when the module is imported (%s = %s), and the %s = %s of its enclosing scope is %s - '
+                                  'one object shared by every call of the closure, so what one caller does with the result changes what later '
+                                  'calls return' % (label, nm, nm, src(cnode)[:40], lname, src(lit)[:40], how), func=key[1])
     return n
 
 
